@@ -391,14 +391,8 @@ mod toplevel_parser {
         (None, extends_or_implements_nodes)
       }
       _ => {
-        let mut type_def = parse_type_definition_inner(parser);
-        let type_def_loc = type_parameters
-          .as_ref()
-          .map(|it| it.location)
-          .unwrap_or(*type_def.loc())
-          .union(type_def.loc());
-        *type_def.loc_mut() = type_def_loc;
-        loc = loc.union(&type_def_loc);
+        let type_def = parse_type_definition_inner(parser);
+        loc = loc.union(type_def.loc());
         let extends_or_implements_nodes = parse_extends_or_implements_nodes(parser);
         if let Some(node) = &extends_or_implements_nodes {
           loc = loc.union(&node.location);
